@@ -315,29 +315,12 @@ def check_entries(P, R, q, spec):
                     'R-MEMO', 'stale-memo', eq, f.name,
                     f'the memo passed to {f.name} is not a fresh '
                     'dictionary', unit=e.unit.rel, line=c.lineno)
-            sp = spec.get('sorted_param')
-            if sp:
-                a = bound.get(sp)
-                good = False
-                if isinstance(a, ast.Name):
-                    defs = [s for s in au.walk_no_defs(e.node)
-                            if isinstance(s, ast.Assign) and any(
-                                au.is_name(t, a.id) for t in s.targets)]
-                    good = bool(defs) and all(
-                        isinstance(s.value, ast.Call) and au.call_name(
-                            s.value) == 'sorted' for s in defs)
-                elif isinstance(a, ast.Call) and au.call_name(
-                        a) == 'sorted':
-                    good = True
-                if good:
-                    R.holds('R-MEMO', eq,
-                            f'`{sp}` handed to {f.name} is sorted')
-                else:
-                    R.violation(
-                        'R-MEMO', 'unsorted-cursor', eq, sp,
-                        f'`{sp}` passed to {f.name} is not the result of '
-                        'sorted(...): the level cursor skips variables',
-                        unit=e.unit.rel, line=c.lineno)
+            # (the list of levels handed to the cursor need not be sorted:
+            # the cursor only ever skips entries above the current node,
+            # and entries skipped at an ancestor are above every
+            # descendant, so the early exit is sound for any order; an
+            # earlier version of this rule demanded `sorted(...)` and was
+            # withdrawn as a false alarm in waiting)
 
 
 def mutable_defaults(P, R):
